@@ -226,7 +226,7 @@ def gen_item(run_seed):
     elif r < 0.80:
         base = ringgen.gen_rule(rng)
         bdesc = 'gen-rule'
-    elif r < 0.92:
+    elif r < 0.91:
         # well-formed text with one semantic fault (label misuse etc.);
         # mostly left without further text-stream faults
         if rng.random() < 0.7:
@@ -240,7 +240,10 @@ def gen_item(run_seed):
     elif r < 0.925:
         # size strata: very long chains (deep nesting for a recursive
         # descent) and very long numbers -- legal input all the same
-        if rng.random() < 0.5:
+        if rng.random() < 0.4:
+            base, what = ringgen.gen_deep(rng)
+            bdesc = 'deep-%s-%d' % (what, len(base))
+        elif rng.random() < 0.5:
             n = rng.choice([60, 150, 250, 400])
             atoms = ['C labeled c1'] + ['C labeled c%d single bond to c%d'
                                         % (i, i - 1) for i in range(2, n + 1)]
@@ -269,6 +272,22 @@ def gen_item(run_seed):
     text = text[:MAX_LEN]
     return {'id': 'm%d' % run_seed, 'text': text, 'base': bdesc,
             'faults': faults}
+
+
+def deep_items():
+    """Every recursive production of the grammar x every depth stratum, with
+    accepted terms throughout (independent of VERIF_SEED): reading time must
+    stay within the step budget at every depth."""
+    items = []
+    for k in range(ringgen.DEEP_KINDS):
+        for n in ringgen.DEEP_SIZES:
+            for rep in range(2):
+                rng = core.rng_for('C09-deep', k * 100000 + n * 10 + rep)
+                text, what = ringgen.gen_deep(rng, k=k, n=n, pure=True)
+                items.append({'id': 'deep%d.%d.%d' % (k, n, rep), 'text': text,
+                              'base': 'deep-%s-%d' % (what, n),
+                              'faults': [{'kind': 'size:deep-' + what}]})
+    return items
 
 
 def trunc_items(corpus_idx, stride, phase):
@@ -304,6 +323,8 @@ def plan(tier, verif_seed):
         tasks.append({'id': 'trunc-%d' % i, 'kind': 'trunc', 'idx': i,
                       'stride': stride,
                       'phase': core.H(verif_seed, 'C09-phase', i) % stride})
+    for k in range(ringgen.DEEP_KINDS):
+        tasks.append({'id': 'deep-%d' % k, 'kind': 'deep', 'k': k})
     seeds = [core.H(verif_seed, 'C09', j) for j in range(nmut)]
     for j in range(0, nmut, chunk):
         tasks.append({'id': 'mut-%d' % j, 'kind': 'mut',
@@ -318,6 +339,9 @@ def _h8(s):
 def run_task(task):
     if task['kind'] == 'trunc':
         items = trunc_items(task['idx'], task['stride'], task['phase'])
+    elif task['kind'] == 'deep':
+        items = [it for it in deep_items()
+                 if it['id'].startswith('deep%d.' % task['k'])]
     elif task['kind'] == 'mut':
         items = [gen_item(s) for s in task['seeds']]
     else:
